@@ -197,8 +197,40 @@ fn main() {
     }
 }
 
+/// the plain apply(rule, data) cases of a property's generator (for cross-entry-point runs)
+fn plain_cases(prop: &str, rng: &mut Rng, count: usize, thorough: bool) -> Vec<(Value, Value, String)> {
+    let cases = match prop {
+        "C01" => gens::gen_c01(rng, count, thorough),
+        "C02" => gens::gen_c02(rng, count, thorough),
+        "C03" => gens::gen_c03(rng, count, thorough),
+        "C04" => gens::gen_c04(rng, count, thorough),
+        "C05" => gens::gen_c05(rng, count, thorough),
+        "C06" => gens::gen_c06(rng, count, thorough),
+        "C07" => gens::gen_c07(rng, count, thorough),
+        "C08" => gens::gen_c08(rng, count, thorough),
+        "C09" => gens::gen_c09(rng, count, thorough),
+        "C10" => gens::gen_c10(rng, count, thorough),
+        "C11" => gens::gen_c11(rng, count, thorough),
+        "C12" => gens::gen_c12(rng, count, thorough),
+        "C13" => gens::gen_c13(rng, count, thorough),
+        "C14" => gens::gen_c14(rng, count, thorough),
+        "C15" => gens::gen_c15(rng, count, thorough),
+        "C16" => gens::gen_c16(rng, count, thorough),
+        _ => Vec::new(),
+    };
+    cases
+        .into_iter()
+        .filter_map(|c| match c.work {
+            Work::Apply { rule, data } => Some((rule, data, c.tag)),
+            _ => None,
+        })
+        .collect()
+}
+
 fn gen_main(args: &[String]) {
     let prop = args[2].clone();
+    let from = get_arg(args, "--from", "");
+    let as_prop = get_arg(args, "--as", &prop);
     let seed: u64 = get_arg(args, "--seed", "1").parse().unwrap_or(1);
     let count: usize = get_arg(args, "--count", "2000").parse().unwrap();
     let thorough = get_arg(args, "--tier", "quick") == "thorough";
@@ -293,6 +325,24 @@ fn gen_main(args: &[String]) {
                 log_cases.push(Case { work: Work::Apply { rule: corpus::norm(&corpus::op("log", vec![corpus::var("x")])), data: corpus::norm(&d) }, tag: "log".into() });
                 log_cases.push(Case { work: Work::Apply { rule: corpus::norm(&json!({"cat": [{"log": "a"}, {"log": {"var": "x"}}, {"if": [false, {"log": "never"}, {"log": "b"}]}]})), data: corpus::norm(&d) }, tag: "log-seq".into() });
             }
+            for _ in 0..(count / 8).max(100) {
+                let dd = 1 + rng.below(3);
+                let inner = gens::rand_rule(&mut rng, dd);
+                let lg = |v: Value| corpus::op("log", vec![v]);
+                let r = match rng.below(10) {
+                    0 => corpus::op("or", vec![corpus::var("f"), lg(corpus::var("z"))]),
+                    1 => corpus::op("or", vec![lg(corpus::var("f")), lg(inner)]),
+                    2 => corpus::op("and", vec![corpus::var("t"), lg(corpus::var("z"))]),
+                    3 => corpus::op("and", vec![lg(corpus::var("t")), lg(inner), lg(corpus::var("f"))]),
+                    4 => corpus::op("if", vec![lg(corpus::var("f")), lg(json!(1)), lg(corpus::var("t")), lg(inner)]),
+                    5 => corpus::op("map", vec![json!([1, 2]), lg(corpus::var(""))]),
+                    6 => corpus::op("filter", vec![json!([0, 1]), lg(corpus::var(""))]),
+                    7 => corpus::op("reduce", vec![json!([1, 2]), lg(corpus::var("current")), lg(json!(0))]),
+                    8 => corpus::op("some", vec![json!([0, 1, 2]), lg(corpus::var(""))]),
+                    _ => lg(inner),
+                };
+                log_cases.push(Case { work: Work::Apply { rule: r, data: json!({"t": 1, "f": 0, "z": ""}) }, tag: "log-in-lazy".into() });
+            }
             simple(log_cases, &mut emitted);
             let rounds = if thorough { 12 } else { 3 };
             for round in 0..rounds {
@@ -343,6 +393,23 @@ fn gen_main(args: &[String]) {
                 });
             }
         }
+        "C18" if !from.is_empty() => {
+            // another property's cases, through the command line
+            let mut picked = plain_cases(&from, &mut rng, count * 4, thorough);
+            let step = (picked.len() / count.max(1)).max(1);
+            picked = picked.into_iter().step_by(step).take(count).collect();
+            for e in boundary::cli_from_plain(&mut rng, &picked) {
+                emitted.push(Emitted { work_term: e.work_term, obs_term: e.obs_term, tag: e.tag, record: e.record, crashed: e.crashed });
+            }
+        }
+        "C19" if !from.is_empty() && get_arg(args, "--stage", "cases") == "cases" => {
+            let mut picked = plain_cases(&from, &mut rng, count * 4, thorough);
+            let step = (picked.len() / count.max(1)).max(1);
+            picked = picked.into_iter().step_by(step).take(count).collect();
+            boundary::py_cases_from_plain(&picked, &format!("{}/py_cases.jsonl", out_dir));
+            println!("{{\"stage\":\"cases\"}}");
+            return;
+        }
         "C18" => {
             for e in boundary::gen_c18(&mut rng, count.min(if thorough { 20000 } else { 1500 }), thorough) {
                 emitted.push(Emitted { work_term: e.work_term, obs_term: e.obs_term, tag: e.tag, record: e.record, crashed: e.crashed });
@@ -365,6 +432,7 @@ fn gen_main(args: &[String]) {
         }
     }
 
+    let prop = as_prop;
     let nshards = write_shards(&prop, &out_dir, &emitted, shards).unwrap();
     // records for replay / evidence
     let mut f = std::io::BufWriter::new(std::fs::File::create(format!("{}/cases_{}.jsonl", out_dir, prop)).unwrap());
